@@ -2878,8 +2878,8 @@ func (t *Topic) replyGetData(sess *Session, asUid types.Uid, asChan bool, req *M
 				for i := range messages {
 					mm := &messages[i]
 					from := ""
-					if !asChan {
-						// Don't show sender for channel readers
+					if !asChan && !t.perUser[asUid].isChan {
+						// Don't show sender for channel readers, however the request spells the topic name.
 						from = types.ParseUid(mm.From).UserId()
 					}
 					outgoingMessages[i] = &ServerComMessage{
